@@ -271,7 +271,9 @@ fn choose(w: &World, rng: &mut Rng, docs: &[(String, String)], loadno: &mut usiz
             let _ = text;
             a["doc"] = json!(name);
             a["k"] = json!(name);
-            a["strict"] = json!(if name == "foreign" { false } else { rng.chance(70) });
+            let strict = if name == "foreign" { false } else { rng.chance(70) };
+            a["strict"] = json!(strict);
+            a["ver"] = json!(if strict { "" } else { "lenient" });
             a["p"] = json!(0);
         }
         "Duplicate" => {
